@@ -181,6 +181,32 @@ def _run(ctx, e2e):
                     ctx.violation(f"second-configuration-raises:{type(exc).__name__}:{exc_site(exc)}", exc_text(exc), case_id, sample)
                 else:
                     ctx.harness_error("C05.second-config", exc)
+        # ---- history: the same files on the *same* grids but with another mode interpolation (so only the spectrum arrays differ):
+        #      judged by the monitors' second reference (the arrays each object was given), which needs no closed form
+        if nontriv and ds.data_class != "power-law":
+            import copy
+            cfg3 = copy.deepcopy(cfg)
+            mg = cfg3["elast"]["settings"]["mode_gamma"]
+            if mg["interpolator"] == "lsq_poly":
+                mg["order"] = 2 if mg["order"] != 2 else 1
+            else:
+                mg["interpolator"], mg["order"] = "lsq_poly", 1
+            try:
+                path3 = WF.write_dataset(ds, cfg3, wd, settings_name="settings3.yaml")
+                before = e2e.ns.objects_judged
+                calc3, exc3 = e2e.run(path3, case_id + "-other-interpolation", spectrum=None)
+                ctx.evaluation("same-grid-other-interpolation", (i, "third"), sample={"first": cfg["elast"]["settings"]["mode_gamma"], "then": mg})
+                if exc3 is not None:
+                    e2e.report_construction_failure(exc3, case_id, "other-interpolation", {"config": cfg3})
+                elif e2e.ns.objects_judged == before:
+                    ctx.inconc("no non-shear object was judged in the other-interpolation run")
+                else:
+                    ctx.count("same_grid_other_spectrum_runs")
+            except Exception as exc:
+                if classify_exception(exc) == "code":
+                    ctx.violation(f"other-interpolation-raises:{type(exc).__name__}:{exc_site(exc)}", exc_text(exc), case_id, sample)
+                else:
+                    ctx.harness_error("C05.third", exc)
 
 
 def judge_dataset(ctx, e2e, calc, ds, cfg, wd, case_id, cls, sample):
